@@ -10,6 +10,9 @@ import (
 	"os"
 	"strings"
 
+	"github.com/gregoryv/mq"
+
+	"verif/internal/bind"
 	"verif/internal/gen"
 	"verif/internal/mon"
 	"verif/internal/ref"
@@ -168,6 +171,23 @@ func c06Judge(c *run.Ctx, s streamCase, rkind string, rd io.Reader) {
 		c.Violation("C06/"+sig, what+" (reader "+rkind+")", d)
 	}
 	pos := int64(0)
+	type kept struct {
+		p    mq.Packet
+		snap ref.Flat
+		k    int
+	}
+	var keptPkts []kept
+	defer func() {
+		// a packet's content depends on its own frame only: reading the
+		// rest of the stream must not have changed the packets read before
+		for _, kp := range keptPkts {
+			if s2, pan := snapshotGuarded(kp.p); pan == nil && !ref.Equal(kp.snap, s2) {
+				d, _, _ := ref.Diff(kp.snap, s2)
+				fail("changed-by-later-read/"+tname(bind.TypeOf(kp.p)), fmt.Sprintf("packet %d of the stream changed while later frames were read: %v", kp.k, d))
+				return
+			}
+		}
+	}()
 	for k, f := range s.frames {
 		h, herr := ref.ParseHeader(f.Bytes)
 		if herr != nil {
@@ -211,6 +231,11 @@ func c06Judge(c *run.Ctx, s streamCase, rkind string, rd io.Reader) {
 		if ok, why := sameOutcome(iso, res); !ok {
 			fail("result/"+f.Kind+"/"+T, fmt.Sprintf("frame %d in the stream: %s", k, why))
 			return
+		}
+		if res.Accepted() && len(keptPkts) < 24 {
+			if sn, pan := snapshotGuarded(res.Pkt); pan == nil {
+				keptPkts = append(keptPkts, kept{res.Pkt, sn, k})
+			}
 		}
 		pos += int64(h.Total())
 	}
